@@ -42,6 +42,43 @@ Theorem C08_in_place :
            m !! p = Some (File c) → m' !! p = Some (File c).
 Proof. exact in_place. Qed.
 
+(** The same for ANY store history (entries accessed, inserted, removed - also the removal of an
+    entry in error after a refused save -, earlier saves refused or successful): a cell of a store
+    rooted at the target that is not loaded yet, or holds what the file system holds, keeps its
+    file with that content through a successful save.  Keys are unique, as in a map. *)
+Theorem C08_in_place_tracked :
+  ∀ (f : font_abs) (t : path) (m m' : sfs) (image : bool) (k : list string) (cl : cell) (c : content),
+    let s := if image then fa_images f else fa_data f in
+    let dir := if image then IMAGES_DIR else DATA_DIR in
+    st_root s = t → NoDup (st_cells s).*1 → (k, cl) ∈ st_cells s →
+    (cl = NotLoaded ∨ cl = Loaded c) → m !! (t ++ dir :: k) = Some (File c) →
+    save f t m = (Saved, m') → m' !! (t ++ dir :: k) = Some (File c).
+Proof. exact in_place_tracked. Qed.
+(** what a save - refused or not - leaves in a cell that was not loaded: an error, or the content
+    the file system holds (so the hypothesis above is kept along a history of saves in place,
+    [font_after] being the font the next save starts from) *)
+Theorem C08_forced_cell :
+  ∀ (png : bool) (dir : string) (m : sfs) (root : path) (k : list string),
+    force_cell png dir m root (k, NotLoaded) = (k, Error) ∨
+    ∃ c, force_cell png dir m root (k, NotLoaded) = (k, Loaded c) ∧ m !! (root ++ dir :: k) = Some (File c).
+Proof.
+  intros png dir m root k. unfold force_cell, read. cbn [fst snd].
+  destruct (m !! (root ++ dir :: k)) as [[c|]|]; auto.
+  destruct (negb png || c_png c); eauto.
+Qed.
+Theorem C08_font_after_stores :
+  ∀ (f : font_abs) (m : sfs),
+    refusal_kind f = None ∨ refusal_kind f = Some RStore →
+    fa_data (font_after f m) = force_store false DATA_DIR m (fa_data f) ∧
+    fa_images (font_after f m) = force_store true IMAGES_DIR m (fa_images f).
+Proof.
+  intros f m H. unfold font_after, refusal_kind in *.
+  destruct (refuses RVersion f); [destruct H; discriminate|].
+  destruct (refuses RObjLibs f); [destruct H; discriminate|].
+  destruct (refuses RGroups f); [destruct H; discriminate|].
+  destruct (refuses RInfo f); [destruct H; discriminate|]. done.
+Qed.
+
 (** Non-vacuity. *)
 Definition ex_c (n : N) : content := Content n false.
 Definition ex_layer : layer_abs :=
@@ -87,4 +124,28 @@ Proof.
     apply Forall2_fmap_r, Forall_Forall2_diag, Forall_forall. intros kc _.
     unfold compose. cbv beta. match goal with |- context [if ?b then _ else _] => destruct b end; [right; reflexivity|left; reflexivity].
   - split; [vm_compute; reflexivity|]. split; vm_compute; reflexivity.
+Qed.
+
+(** a refused save, the repair, the second save: the source has a data file, a PNG and an image
+    without the signature; nothing was read yet.  The first save in place is refused and changes
+    nothing; after removing the entry in error from the font the save succeeds, the bad file and
+    the stale file are gone, the data file and the good image are still there. *)
+Definition ex_src2 : sfs := <[["t"; "images"; "bad.png"] := File (ex_c 11)]> ex_src.
+Definition ex_f1 : font_abs :=
+  ex_font 3 false true true (Store ["t"] [(["a.txt"], NotLoaded); (["d"; "b.bin"], NotLoaded)])
+          (Store ["t"] [(["bad.png"], NotLoaded); (["i.png"], NotLoaded)]).
+Definition drop_errors (s : store) : store :=
+  Store (st_root s) (List.filter (λ kc, match kc.2 with Error => false | _ => true end) (st_cells s)).
+Example C08_refuse_repair_save :
+  save ex_f1 ["t"] ex_src2 = (Failed InvalidStoreEntry, ex_src2) ∧
+  let f2 := font_after ex_f1 ex_src2 in
+  let f3 := set_stores f2 (fa_data f2) (drop_errors (fa_images f2)) in
+  st_cells (fa_images f3) = [(["i.png"], Loaded (Content 9 true))] ∧
+  ∃ m', save f3 ["t"] ex_src2 = (Saved, m') ∧
+        m' !! ["t"; "images"; "bad.png"] = None ∧ m' !! ["t"; "stale"] = None ∧
+        m' !! ["t"; "data"; "d"; "b.bin"] = Some (File (ex_c 8)) ∧
+        m' !! ["t"; "images"; "i.png"] = Some (File (Content 9 true)).
+Proof.
+  split; [vm_compute; reflexivity|]. split; [vm_compute; reflexivity|].
+  eexists. split; [vm_compute; reflexivity|]. repeat split; vm_compute; reflexivity.
 Qed.
